@@ -421,3 +421,87 @@ Theorem C03_combo_plan_hypotheses_satisfiable :
          (0%N, (Some (PInt 11), NGreater, KMaximum 10)) ].
 Proof. exact combo_plan_nonvacuous. Qed.
 Print Assumptions C03_combo_plan_hypotheses_satisfiable.
+
+(* ---------------------------------------------------------------------- *)
+(* _negative_type: the values presented as Incorrect type, for a type       *)
+(* keyword that is a string or a list (type: [integer, null])               *)
+(* ---------------------------------------------------------------------- *)
+
+(* FULL: for every type keyword (string or list, any names, any order, repetitions), every class of
+   value that any strategy consulted by _negative_type can return belongs to none of the listed types *)
+Theorem C03_negative_type_values_violate :
+  forall (kw : type_kw) (l : list strat) (s : strat) (k : vclass),
+    negative_type_plan kw = TypePlan l -> In s l -> draws s k = true -> conforms_type kw k = false.
+Proof. exact negative_type_values_violate. Qed.
+Print Assumptions C03_negative_type_values_violate.
+
+Theorem C03_negative_type_plan_depends_on_type_set :
+  forall kw1 kw2 : type_kw,
+    (forall t, type_in t (types_of kw1) = type_in t (types_of kw2)) ->
+    negative_type_plan kw1 = negative_type_plan kw2.
+Proof. exact negative_type_plan_same_set. Qed.
+Print Assumptions C03_negative_type_plan_depends_on_type_set.
+
+Theorem C03_negative_type_integer_listed_only_fractional_floats :
+  forall (kw : type_kw) (l : list strat),
+    type_in TInteger (types_of kw) = true -> negative_type_plan kw = TypePlan l ->
+    In SFracFloats l /\ ~ In SNumeric l /\ ~ In SIntegers l.
+Proof. exact negative_type_integer_listed. Qed.
+Print Assumptions C03_negative_type_integer_listed_only_fractional_floats.
+
+(* the generator ends with KeyError (del strategies[integer]) exactly when number and integer are both listed *)
+Theorem C03_negative_type_plan_total_partial :
+  forall kw : type_kw, not_number_and_integer kw = true <-> exists l, negative_type_plan kw = TypePlan l.
+Proof. exact negative_type_plan_total. Qed.
+Print Assumptions C03_negative_type_plan_total_partial.
+
+(* regression sentinel: the float rule keyed on the raw keyword agrees with the code on every string ... *)
+Theorem C03_negative_type_raw_keyword_agrees_on_strings :
+  forall t : jtype, negative_type_plan_raw_keyword (TyStr t) = negative_type_plan (TyStr t).
+Proof. exact raw_keyword_plan_agrees_on_strings. Qed.
+Print Assumptions C03_negative_type_raw_keyword_agrees_on_strings.
+
+(* ... and for type [integer, null] consults integers | floats: an int (0) is presented as Incorrect type *)
+Theorem C03_negative_type_raw_keyword_refuted :
+  exists (kw : type_kw) (l : list strat) (s : strat) (k : vclass),
+    not_number_and_integer kw = true /\ negative_type_plan_raw_keyword kw = TypePlan l /\ In s l
+    /\ draws s k = true /\ conforms_type kw k = true
+    /\ negative_type_plan kw = TypePlan [SFracFloats; SBooleans; SText; SArrays; SObjects].
+Proof. exact raw_keyword_plan_refuted_ex. Qed.
+Print Assumptions C03_negative_type_raw_keyword_refuted.
+
+Theorem C03_negative_type_hypotheses_satisfiable :
+  negative_type_plan (TyStr TInteger) = TypePlan [SFracFloats; SBooleans; SNone; SText; SArrays; SObjects]
+  /\ negative_type_plan (TyList [TInteger]) = TypePlan [SFracFloats; SBooleans; SNone; SText; SArrays; SObjects]
+  /\ negative_type_plan (TyStr TNumber) = TypePlan [SBooleans; SNone; SText; SArrays; SObjects]
+  /\ negative_type_plan (TyList [TNumber; TNull]) = TypePlan [SBooleans; SText; SArrays; SObjects]
+  /\ negative_type_plan (TyList [TString; TInteger]) = TypePlan [SFracFloats; SBooleans; SNone; SArrays; SObjects]
+  /\ negative_type_plan (TyList [TBoolean; TNull]) = TypePlan [SIntegers; SNumeric; SText; SArrays; SObjects]
+  /\ negative_type_plan (TyList []) = TypePlan [SIntegers; SNumeric; SBooleans; SNone; SText; SArrays; SObjects]
+  /\ negative_type_plan (TyList [TOther 7%N]) = TypePlan [SIntegers; SNumeric; SBooleans; SNone; SText; SArrays; SObjects]
+  /\ negative_type_plan (TyList [TNumber; TInteger]) = TypeRaisesKeyError
+  /\ negative_type_plan (TyList [TInteger; TNumber; TNull]) = TypeRaisesKeyError.
+Proof. exact negative_type_plan_examples. Qed.
+Print Assumptions C03_negative_type_hypotheses_satisfiable.
+
+(* minLength / maxLength negatives under a type keyword: the foreign generator is asked for the DECLARED
+   type(s); when only string is listed (or the keyword is absent) the drawn value is a string, so the
+   requested wrong length (C03_negative_lengths_violate) makes it violate the keyword *)
+Theorem C03_length_negative_is_string_partial :
+  forall (declared : option type_kw) (k : vclass),
+    string_only (length_request_type declared) = true ->
+    conforms_type (length_request_type declared) k = true -> length_applies k = true.
+Proof. exact length_negative_string_only. Qed.
+Print Assumptions C03_length_negative_is_string_partial.
+
+(* F11: type [string, null] with maxLength: the request admits null, which no length keyword constrains *)
+Theorem C03_length_negative_type_list_refuted :
+  exists (declared : option type_kw) (k : vclass),
+    conforms_type (length_request_type declared) k = true /\ length_applies k = false
+    /\ string_only (length_request_type declared) = false.
+Proof. exact length_negative_type_list_refuted. Qed.
+Print Assumptions C03_length_negative_type_list_refuted.
+
+Theorem C03_length_negative_hypotheses_satisfiable : string_only (length_request_type None) = true.
+Proof. exact length_negative_absent_type_is_string_only. Qed.
+Print Assumptions C03_length_negative_hypotheses_satisfiable.
